@@ -352,7 +352,7 @@ ADOPT = {
         this.hid != other.hid ==> final(heap).view() == adopt_spec(old(heap).view(), this.ptr, other.ptr),
 """,
   "inserts": [
-   {"at": r"^\s*return;", "pos": "before", "text": r"""        proof { assert(heap.view() =~= old(heap).view().insert(this.ptr, bump(old(heap).view()[this.ptr], ll(other.ptr)))); }"""},
+   {"at": r"^\s*return;", "pos": "before", "optional": True, "text": r"""        proof { assert(heap.view() =~= old(heap).view().insert(this.ptr, bump(old(heap).view()[this.ptr], ll(other.ptr)))); }"""},
    # order-agnostic hints (a refactor that records the backward link first must stay green): the two keys differ, so
    # neither insertion changes the other key's count
    {"at": r"\.insert\(Link::(forward|backward)\(", "nth": "all", "pos": "before", "text": r"""    proof {
@@ -374,7 +374,7 @@ ADOPT = {
         this.hid != other.hid ==> final(heap).view() == unadopt_spec(old(heap).view(), this.ptr, other.ptr),
 """,
   "inserts": [
-   {"at": r"^\s*return;", "pos": "before", "text": r"""        proof { assert(heap.view() =~= old(heap).view().insert(this.ptr, unbump(old(heap).view()[this.ptr], ll(other.ptr)))); }"""},
+   {"at": r"^\s*return;", "pos": "before", "optional": True, "text": r"""        proof { assert(heap.view() =~= old(heap).view().insert(this.ptr, unbump(old(heap).view()[this.ptr], ll(other.ptr)))); }"""},
   ],
   "body_end": r"""    proof {
         lemma_adopt_spec_commutes(old(heap).view(), this.ptr, other.ptr);
@@ -450,7 +450,7 @@ pub proof fn lemma_nonzero_preserved(t: Tables, a: Ptr, b: Ptr)
  "drop_unreachable_with_adoptions": {
   "params": ["this"],
   "locals": [("forward", r"let (\w+) = Link::forward\("), ("backward", r"let (\w+) = Link::backward\("), ("links", r"let (\w+) = \w+\.inner\(\)\.links\(\);"),
-             ("item", r"for \((\w+), &\w+\) in "), ("strong", r"for \(\w+, &(\w+)\) in ")],
+             ("item", r"for \((\w+), (?:&\w+|_)\) in "), ("strong", r"for \(\w+, (?:&(\w+)|(_))\) in ")],
   "sig_rewrites": [(r"\(this: &mut Rc<T>\)", "(this: &RcH2, heap: &mut MHeap)")],
   "spec": r"""    requires
         old(heap).wf(), old(heap).has(this.ptr), old(heap).out@ == Set::<Ptr>::empty(),
@@ -492,7 +492,7 @@ pub proof fn lemma_nonzero_preserved(t: Tables, a: Ptr, b: Ptr)
             assert(v0.contains_key(l.ptr));
         }
 """},
-   {"at": r"^\s*continue;", "pos": "before", "text": r"""            proof {
+   {"at": r"^\s*continue;", "pos": "before", "optional": True, "text": r"""            proof {
                 assert(l.ptr == x);
                 assert forall|q: Ptr| heap.view().contains_key(q) implies fl(q) != l && bl(q) != l by { if fl(q) == l || bl(q) == l { assert(q == x); } }
             }
